@@ -1,4 +1,5 @@
 import BeyondVerif.Model.CWF
+import BeyondVerif.Generated.CWHelperF
 import BeyondVerif.Drv.Util
 namespace BeyondVerif.Drv.C16
 open BeyondVerif BeyondVerif.Drv BeyondVerif.F
@@ -20,9 +21,20 @@ partial def parseMans : List String → Option (List Man)
     | _ => none
   | _ => none
 
+/-- a maneuver list as floats: `0 tm dx dy dz` | `1 ts te ax ay az` -/
+def flatMans : List Man → List Float
+  | [] => []
+  | Man.imp tm dv :: rest => [0.0, tm] ++ dv ++ flatMans rest
+  | Man.cont ts te a :: rest => [1.0, ts, te] ++ a ++ flatMans rest
+
 /-- `cw <tnw 0|1> <n> <t> <x0..x5> <mans…>` → six floats: `propagate` from epoch 0 to time t
+    `cw0 <tnw> <n> <t> <t0> <x0..x5> <mans…>` → `propagate` of an orbit dated `t0` (a propagated orbit that still carries the list)
+    `cwref <n> <t> <t0> <x0..x5> <mans…>` → `hillSol`, the reference solution (QSW)
+    `cwfix <n> <t> <t0> <x0..x5> <mans…>` → `cwPropagateFixed` (the sequencing of the proposed fix, QSW)
     `cwstep <tnw> <n> <t> <x0..x5> <a0..a2>` → `_propagate` with acceleration
-    `cwmat <n> <t>` → the 36 + 18 matrix entries -/
+    `cwmat <n> <t>` → the 36 + 18 matrix entries
+    `helper <tnw> coelliptic|hohmann|eccentric|tangential|vbar <n> <3 arguments in the order of the Python signature; continuous as 0/1>`
+       → the translated `CWHelper` method (Generated/CWHelperF.lean): state, or maneuvers flattened by `flatMans` -/
 def handle : List String → Option String
   | "cw" :: tnw :: rest => some <| Id.run do
     match takeFloats 8 rest with
@@ -31,11 +43,42 @@ def handle : List String → Option String
       | some mans => fsToStr (cwPropagate (tnw == "1") n mans t 0.0 [x0, x1, x2, x3, x4, x5])
       | none => "bad-op"
     | _ => "bad-op"
+  | "cw0" :: tnw :: rest => some <| Id.run do
+    match takeFloats 9 rest with
+    | some ([n, t, t0, x0, x1, x2, x3, x4, x5], rest) =>
+      match parseMans rest with
+      | some mans => fsToStr (cwPropagate (tnw == "1") n mans t t0 [x0, x1, x2, x3, x4, x5])
+      | none => "bad-op"
+    | _ => "bad-op"
+  | "cwref" :: rest => some <| Id.run do
+    match takeFloats 9 rest with
+    | some ([n, t, t0, x0, x1, x2, x3, x4, x5], rest) =>
+      match parseMans rest with
+      | some mans => fsToStr (hillSol n mans t t0 [x0, x1, x2, x3, x4, x5])
+      | none => "bad-op"
+    | _ => "bad-op"
+  | "cwfix" :: rest => some <| Id.run do
+    match takeFloats 9 rest with
+    | some ([n, t, t0, x0, x1, x2, x3, x4, x5], rest) =>
+      match parseMans rest with
+      | some mans => fsToStr (cwPropagateFixed n mans t t0 [x0, x1, x2, x3, x4, x5])
+      | none => "bad-op"
+    | _ => "bad-op"
   | "cwstep" :: tnw :: rest => some <|
     match takeFloats 11 rest with
     | some ([n, t, x0, x1, x2, x3, x4, x5, a0, a1, a2], _) =>
       fsToStr (cwStep (tnw == "1") n t [x0, x1, x2, x3, x4, x5] [a0, a1, a2])
     | _ => "bad-op"
+  | "helper" :: tnw :: which :: rest => some <|
+    let m3 := if tnw == "1" then qsw2tnw else id3
+    let m6 := if tnw == "1" then qsw2tnw6 else id6
+    match which, takeFloats 4 rest with
+    | "coelliptic", some ([n, d, r, tg], _) => fsToStr (helperCoelliptic m6 n d r tg ++ [helperPeriod n, helperHohmannDistance r false, helperHohmannDistance r true])
+    | "hohmann", some ([n, r, d, c], _) => fsToStr (flatMans (helperHohmann m3 n r d (c != 0.0)))
+    | "eccentric", some ([n, tg, d, c], _) => fsToStr (flatMans (helperEccentricBoost m3 n tg d (c != 0.0)))
+    | "tangential", some ([n, tg, d, _], _) => fsToStr (flatMans (helperTangentialBoost m3 n tg d))
+    | "vbar", some ([n, tg, d, v], _) => fsToStr (flatMans (helperVbarLinear m3 n tg d v))
+    | _, _ => "bad-op"
   | "cwmat" :: rest => some <|
     match takeFloats 2 rest with
     | some ([n, t], _) => let m := cwMats n t; fsToStr (m.1.flatten ++ m.2.flatten)
